@@ -6,6 +6,7 @@ CONSTANTS
   KeyLock = TRUE
   ExpiryRecheck = TRUE
   EntryApi = FALSE
+  FlushLock = TRUE
 SPECIFICATION Spec
 INVARIANT Linearizable
 PROPERTY Termination
